@@ -11,13 +11,13 @@ BFS = "explicit-state BFS over operation histories of the real object (replayed 
 CHECKS = {
  "C01": ("model_checking", BFS + "; fix-point over a finite key universe",
          "every reachable AVL shape over 9 (quick) / 12 (thorough) keys and every MultiMap over 2-4 keys with up to 7-12 entries is reached and from each "
-         "every operation of the alphabet is executed and compared with a sorted reference, including the stated comparison bound of find",
+         "every operation of the alphabet is executed and compared with a sorted reference, including the stated comparison bound of find; sparse (Fibonacci) trees of height 6/7 with every removal/re-insertion sequence to depth 4-6; the canonical state includes the sentinel links, begin, size and the spare-slot pool",
          "bounded key universe; internals read with -fno-access-control only for the canonical state", "DESIGN.md §4 C01"),
  "C02": ("model_checking", BFS + "; fix-point for every (capacity x hash mode) configuration",
-         "all ordered key sets over 3-5 keys in two variables, all bucket-chain orders, capacities 1/2/3/500 and three hash modes, every operation compared with an insertion-ordered reference",
+         "all ordered key sets over 3-5 keys in two variables, all bucket-chain orders, capacities 1/2/3/500 and three hash modes, every operation (swap with either receiver) compared with an insertion-ordered reference; String keys that collide under the library's own hash at capacities 1/2/7; pool shape and sentinel links in the canonical state",
          "bounded key universe", "DESIGN.md §4 C02"),
  "C03": ("model_checking", BFS + "; plus exhaustive enumeration of List::sort inputs",
-         "all List value sequences up to length 3-5 in two variables, all Array (size,capacity,allocated) states up to size 12-16, all PoolList sizes; every sort input up to length 7-9 over 4 values and all permutations of 8-9 values",
+         "all List value sequences up to length 3-7 in two variables, all Array (size,capacity,allocated) states up to size 12-28, all PoolList sizes up to 5-13 (with pool shape); every sort input up to length 7-9 over 4 values and all permutations of 8-9 values",
          "bounded lengths/value universes", "DESIGN.md §4 C03"),
  "C04": ("model_checking", BFS + "; element type with instance registry + allocation ledger, self-referential alphabet",
          "every history of the C01-C03 spaces extended by self-assignment and own-element arguments is executed with lifetime-tracked elements; leaks, double destruction, touch-after-destroy and shallow copies are decided on every transition",
@@ -26,50 +26,50 @@ CHECKS = {
          "in every reachable state of the C01-C03 spaces every live element is re-obtained by iteration and find and must be at the address recorded at its insertion",
          "bounded universes as C01-C03", "DESIGN.md §4 C05"),
  "C06": ("model_checking", BFS + "; depth-bounded from six initial representation/sharing states",
-         "every history up to depth 4-6 over three String variables, started from the empty state and from literal / attached / shared / slack states, is executed and every variable compared with a std::string-like reference after each step",
+         "every history up to depth 4-6 over three String variables, started from the empty state and from literal / attached / shared / slack states, is executed and every variable compared with a std::string-like reference after each step; plus every operand length 0..300 (1500) for printf / fromPrintf / append / prepend / resize / reserve on five initial representations (the length thresholds of the formatted-output path)",
          "contents over a small byte alphabet, length <= 3-6; infinite space, depth bounded", "DESIGN.md §4 C06"),
  "C07": ("model_checking", BFS + "; depth-bounded from four initial sharing states, value-tree reference",
-         "every history up to depth 3-5 over three Variant variables incl. nested containers; after each step every accessor/coercion, the nested structure, copy equality, reference counts and the ledger are compared with a value-tree model",
+         "every history up to depth 3-7 over three Variant variables incl. nested containers; after each step every accessor/coercion, the nested structure, copy equality, reference counts and the ledger are compared with a value-tree model",
          "NaN excluded; a Variant is not inserted into its own payload; infinite space, depth bounded", "DESIGN.md §4 C07"),
  "C08": ("model_checking", BFS + "; fix-point over (owned, head-room, size, capacity, attached) of two Buffers",
-         "every reachable combination of ownership, head-room, size and capacity (sizes up to 6/9) with every operation incl. attach mixed with owning operations; terminator and bounds decided on every transition (ASan)",
+         "every reachable combination of ownership, head-room, size and capacity (sizes up to 6/16) with every operation incl. attach mixed with owning operations; terminator and bounds decided on every transition (ASan)",
          "byte values are data only (canonical-state argument); self arguments excluded", "DESIGN.md §4 C08"),
  "C09": ("model_checking", "explorer A (handle-history BFS with reference-count invariants) + explorer B (preemption-bounded schedule DFS of threads owning distinct handles to one payload, guard-page allocator)",
-         "sequential: every handle history (copy/assign/swap/null/destroy) over RefCount::Ptr and Xml::Variant to a fix-point / depth bound and the String/Variant histories with count == sharers; concurrent: every schedule with <= 2 (3) preemptions at volatile/atomic operations and every schedule with <= 1 preemption with all plain accesses as scheduling points, for 9 three-thread scenarios",
+         "sequential: every handle history (copy/assign/swap/null/destroy, handles stored inside the managed objects: h = h->next and the like) over RefCount::Ptr and Xml::Variant to a fix-point / depth bound and the String/Variant histories with count == sharers; concurrent: every schedule with <= 2 (3) preemptions at volatile/atomic operations and every schedule with <= 1 preemption with all plain accesses as scheduling points, for 9 three-thread scenarios",
          "sequential consistency (no weak-memory effects); bounded numbers of handles and threads", "DESIGN.md §4 C09"),
  "C10": ("model_checking", "stateless delay/preemption-bounded DFS over thread schedules of the real Future + worker pool under a serialising scheduler; Future.cpp is included into the scenario unit to install small pools and to shut the pool down",
-         "eight scenarios (single client, lazy creation race, one-slot queue back-pressure, three futures before any join, abort, restart, clock jumps driving the shrink branch, client+main on a one-slot queue): every schedule with <= 2 deviations from the default scheduler (1 for the 650-point lazy-creation scenario in the quick tier); exactly-once, join-after-completion, result, state, deadlock/livelock, call-record lifetime (guard allocator) and operations on destroyed primitives are decided on each",
+         "nine scenarios (single client, lazy creation race, one-slot queue back-pressure, three futures before any join, abort, restart, clock jumps driving the shrink branch, client+main on a one-slot queue, growth to three workers followed by idle periods that retire them): every schedule with <= 2 (3 thorough) deviations from the default scheduler (1 (2) for the 650-point lazy-creation scenario), and with every plain access as a scheduling point with <= 1 (2); exactly-once, join-after-completion, result, state, deadlock/livelock, call-record lifetime (guard allocator) and operations on destroyed primitives are decided on each",
          "sequential consistency; processor count 1 (pool of at most 3 workers); delay-bounded (a non-default successor at a blocking point costs budget too)", "DESIGN.md §4 C10"),
  "C11": ("model_checking", "stateless preemption- and deviation-bounded DFS over thread schedules of the real primitives under a serialising scheduler (TSan-ABI callbacks + renamed pthread/sem/clock calls as scheduling points)",
          "every schedule with <= 2 (3) preemptions and <= 1 (2) environment deviations (spurious wake-up, early timeout) of 2-4 thread scenarios per primitive, plus the deadline arithmetic of every timed wait for 18 start/timeout combinations; deadlock/livelock verdicts from the scheduler",
          "the scheduler's model of POSIX primitives is trusted; sequential consistency; plain accesses are not scheduling points", "DESIGN.md §3.3, §4 C11"),
  "C12": ("model_checking", "stateless exhaustive DFS over choice sequences (top-level steps x re-entrant reactions inside slots) on the real implementation with a lockstep reference model",
-         "every program of up to 4 (5) top-level steps with up to 3 re-entrant reactions (connect/disconnect/emit/destroy inside slots, nesting to 3-4) over 1-2 emitters, 1-2 signals, 2-3 listeners, 1-2 slots; every invocation, every returning emission and both sides' bookkeeping are decided against the model, destroyed objects by ASan",
+         "every program of up to 4 (5-6) top-level steps with up to 3 (4) re-entrant reactions (connect/disconnect/emit/destroy inside slots, nesting to 3-4) over 1-2 emitters, 1-2 signals, 2-3 listeners, 1-2 slots; every invocation, every returning emission and both sides' bookkeeping are decided against the model, destroyed objects by ASan",
          "bounded numbers of objects, steps and reactions", "DESIGN.md §4 C12"),
  "C13": ("model_checking", "stateless exhaustive DFS over choice sequences of environment answers (send outcomes, peer reads, time) and application actions on the real Server/Socket code with intercepted send/epoll_wait/clock",
-         "every sequence of 4 (5) application turns over {write 1/3/8, suspend, resume, peer write, nothing} combined with every placement of <= 2 (3) non-default OS answers (would-block, partial 1 / n/2 / n-1, peer reads nothing / one byte); stream integrity, postponed/backlog size, onWrite accounting and suspension are decided on each; a descriptor that answered would-block stays unwritable until time advances so that backlogs persist across application turns",
-         "real kernel socket pair + epoll readiness; no error injection here", "DESIGN.md §4 C13"),
+         "every sequence of 4 (5) application turns over {write 1/3/8, suspend, resume, peer write, nothing} combined with every placement of <= 2 (3) non-default OS answers (would-block, partial 1 / n/2 / n-1, peer reads nothing / one byte); stream integrity, postponed/backlog size, onWrite accounting and suspension are decided on each; a descriptor that answered would-block stays unwritable until time advances so that backlogs persist across application turns; two clients (3 turns) whose callbacks suspend / resume / remove each other, with would-block, partial and connection-reset answers (onClosed exactly once after a failed send)",
+         "real kernel socket pair + epoll readiness; the only injected hard error is a connection reset on send", "DESIGN.md §4 C13"),
  "C14": ("model_checking", "explorer C (stateless DFS over programs of application turns, re-entrant reactions inside callbacks and environment deviations on the real Server with intercepted epoll_wait/clock) + explorer B (schedule DFS of run() against interrupt() from a second thread with the event descriptor and epoll modelled by the scheduler)",
-         "sequential: every program of up to 3-5 application turns and up to 2 reactions inside timer/onRead callbacks over timers with equal and different due times, two paired clients, peer writes/closes, suspend/resume, interrupt, with clock overshoot/jump and reversed readiness order; threaded: four run/interrupt scenarios under every schedule with <= 2 (3) preemptions",
-         "real kernel socket pairs and epoll in the sequential part; TCP listeners/establishers and the host name resolver are not exercised", "DESIGN.md §4 C14"),
+         "sequential: every program of up to 3-5 application turns and up to 2 reactions inside timer/onRead callbacks over timers with equal and different due times, two paired clients, peer writes/closes, suspend/resume, interrupt, with clock overshoot/jump and reversed readiness order; two clients with send backlogs reacting on each other; listeners and establishers over real loopback TCP in a private network namespace (3-5 turns, 1-3 reactions inside onAccepted/onConnected/onAbolished/onRead); threaded: four run/interrupt scenarios and five host-name-resolver scenarios (resolver on a pool thread against remove, destruction and interrupt) under every schedule with <= 2 (3) preemptions",
+         "real kernel socket pairs, loopback TCP and epoll in the sequential parts (the TCP part needs the privilege to create a network namespace, reported in the evidence); getaddrinfo is replaced by a model that resolves no name", "DESIGN.md §4 C14"),
  "C15": ("exploration", "exhaustive enumeration of token strings / value trees / symbol strings on the real parser, serialiser and comment stripper under ASan",
          "every token string up to 5 (6) tokens over a 32-token alphabet, every value tree up to 4 (5) nodes, every stripComments input up to 8 (10) symbols; totality, bounds, error position, round trip and comment removal are decided on each",
-         "alphabets and sizes are bounded; Variant == decides tree equality", "DESIGN.md §4 C15"),
+         "alphabets and sizes are bounded; integers must come back as integers of identical value (Variant == alone converts between number types)", "DESIGN.md §4 C15"),
  "C16": ("exploration", "exhaustive enumeration of token strings / element trees / comment placements on the real parser and serialiser under ASan, plus handle-history BFS for element value copies",
-         "every token string up to 5 (6) tokens over a 27-token alphabet through both entry points, every element tree of the stated shape space serialised and re-parsed, a comment at every token boundary of every tree, processing instructions with line breaks, nesting to 1000; time and memory watchdogs decide termination",
+         "every token string up to 5 (6) tokens over a 27-token alphabet through both entry points, every element tree of the stated shape space serialised and re-parsed, values with 0..300 (1200) characters that need escaping (every reallocation point of the escaper), a comment at every token boundary of every tree, processing instructions with line breaks, nesting to 1000; time and memory watchdogs decide termination",
          "alphabets and sizes are bounded; comments inside tags are white-space separated", "DESIGN.md §4 C16"),
  "C17": ("exploration", "exhaustive enumeration of message length x chunking shapes on the real code vs hashlib/hmac",
-         "every length 0..300 (600 thorough) x 4 content generators, every 2-way and (bounded) 3-way chunking, hasher reuse, "
-         "HMAC for every key length 0..200: the padding/carry/key-normalisation logic depends on lengths only, so the shape space is exhausted",
+         "every length 0..300 (1500 thorough) x 4 content generators, every 2-way and (bounded) 3-way chunking, hasher reuse, "
+         "HMAC for every key length 0..200 (300): the padding/carry/key-normalisation logic depends on lengths only, so the shape space is exhausted",
          "trusts Python hashlib/hmac; content limited to four generators", "DESIGN.md §4 C17"),
  "C18": ("exploration", "exhaustive enumeration of code points / short byte strings / boundary integers / encodings on the real codecs under ASan + bounds sanitizer",
-         "all 1,114,112 code points, all byte strings up to 3 bytes plus class-alphabet strings up to 5 (6) bytes in exactly sized blocks, all 16-bit and power-of-two boundary integers, all base64 encodings of short inputs and arbitrary 4/8-symbol inputs",
+         "all 1,114,112 code points, all byte strings up to 3 bytes plus class-alphabet strings up to 5 (6) bytes in exactly sized blocks, all 16-bit and power-of-two boundary integers, all base64 encodings of short inputs, arbitrary 4/8-symbol inputs and every byte value at every position of two well-formed groups",
          "longer inputs covered by class alphabets only", "DESIGN.md §4 C18"),
  "C19": ("exploration", "exhaustive enumeration of path strings, relative-path pairs, file operation histories, mkdir arguments and directory trees against reference models on a real scratch file system",
          "every path of <= 4 (5) components over 8 names and both separators, all answerable getRelativePath pairs, every file operation history of <= 4 (5) steps over 24 operations, every Directory::create argument of <= 3 components, every tree of <= 4 (5) nodes with symlinks for recursive unlink",
          "the kernel's file system semantics are trusted; runs in a private scratch directory", "DESIGN.md §4 C19"),
  "C20": ("exploration", "exhaustive enumeration of argument vectors against glibc getopt_long, and of command lines / launch configurations against an echoing helper child",
-         "every argument vector of <= 4 (5) strings over 19 option/value forms in exactly sized heap blocks, every command line of <= 3 words over 7 quoting forms through the real Process::open, the launch matrix (overloads x environments x stream combinations x payload sizes around the pipe capacity) and all 256 exit codes",
+         "every argument vector of <= 4 (6) strings over 21 option/value forms in exactly sized heap blocks, every command line of <= 3 words over 7 quoting forms through the real Process::open, the launch matrix (overloads x environments x stream combinations x payload sizes around the pipe capacity) and all 256 exit codes",
          "glibc getopt_long (exact long names) is the reference; real vfork/exec in the sandbox", "DESIGN.md §4 C20"),
 }
 NOT_YET = "check not built yet in this snapshot (planned, see DESIGN.md §4)"
